@@ -233,7 +233,7 @@ def shared():
     C10); the dependency option adds the procedures *this* program needs, whatever was converted before (shared with C13)"""
     from tx import p_c10, p_c13
     from tx import p_c12
-    return ([dict(o, id="size/" + o["id"]) for o in p_c10.dim_contract() if "one statement" in o["id"]] + __import__("tx.p_c05", fromlist=["share"]).share("deps/", p_c13.history() + p_c13.line_splitting() + p_c13.user_text())
+    return ([dict(o, id="size/" + o["id"]) for o in p_c10.dim_contract() if "one statement" in o["id"]] + __import__("tx.p_c05", fromlist=["share"]).share("deps/", p_c13.small_graphs() + p_c13.bundle_closed_through_convert() + p_c13.history() + p_c13.line_splitting() + p_c13.user_text())
             + [dict(o, id="function-of-its-arguments/" + o["id"]) for o in p_c12.persistent_state()])
 
 
